@@ -1,5 +1,6 @@
 import TR.Model.Common
 import TR.Model.Bulkhead
+import TR.Model.TimeLimiter
 import TR.Model.Chaos
 import TR.Model.Fallback
 import TR.Model.Coalesce
@@ -32,6 +33,7 @@ def machineOf (name : String) : Option Machine :=
   | "coalesce" => some Coalesce.machine
   | "fallback" => some Fallback.machine
   | "chaos" => some Chaos.machine
+  | "timelimiter" => some TimeLimiter.machine
   | _ => none
 
 structure Run (m : Machine) where
